@@ -101,7 +101,7 @@ func runShard(o DriverOpts, p *Prop, work string, shard, nshards int, race bool,
 		if gomaxprocs > 0 {
 			gmp = gomaxprocs
 		}
-		env = append(env, "GOMAXPROCS="+strconv.Itoa(gmp), "GOTRACEBACK=all")
+		env = append(env, "GOMAXPROCS="+strconv.Itoa(gmp), "GOTRACEBACK=all", "VERIF_DIR="+o.VerifDir)
 		if race {
 			env = append(env, "GORACE=halt_on_error=0 log_path="+sr.raceLog+" history_size=3")
 		}
